@@ -61,7 +61,8 @@ class OpView:
             inline = DEPTH["inline"]
         k = (bid, variant, inline, DEPTH["max_visits"])
         if k not in self._arms:
-            self._arms[k] = enumerate_paths(self.P, self.P.bodies[bid], variant, max_visits=DEPTH["max_visits"], inline=inline, limit=200000)
+            ps = enumerate_paths(self.P, self.P.bodies[bid], variant, max_visits=DEPTH["max_visits"], inline=inline, limit=200000)
+            self._arms[k] = [p for p in ps if not none_after_some_infeasible(p)]
         return self._arms[k]
 
     def key(self, bid, variant, lemma, what=""):
